@@ -27,7 +27,7 @@ struct MzCall { void* ptr; size_t len; };
 enum KdfMode { KDF_FIXED, KDF_MIX, KDF_NOTOUCH };
 
 // libc interposition counters (only meaningful in binaries linked with -Wl,--wrap=malloc,--wrap=free,--wrap=time; see props/c18)
-struct Wrap { bool enabled = false; bool window = false; int in_stub = 0; uint64_t malloc_calls = 0, free_calls = 0, time_calls = 0; };
+struct Wrap { bool enabled = false; bool window = false; int in_stub = 0; uint64_t malloc_calls = 0, free_calls = 0, time_calls = 0; bool fake = false; uint64_t fake_time = 0; };   // fake: the interposed libc time() answers fake_time inside an API window
 inline Wrap& wrap() { static Wrap w; return w; }
 struct StubScope { bool on; StubScope() : on(wrap().enabled) { if (on) wrap().in_stub++; } ~StubScope() { if (on) wrap().in_stub--; } };   // no shared writes unless interposition is in use (C20 runs many threads)
 enum MzMode { MZ_WIPE, MZ_MARK, MZ_NOOP };
@@ -37,7 +37,7 @@ struct Kit {
     // --- random source
     std::vector<uint8_t> rand_bytes; size_t rand_pos = 0; std::vector<size_t> rand_calls; uint64_t rand_total = 0;
     // --- clock
-    uint64_t clock = 1700000000ull; uint64_t time_calls = 0;
+    uint64_t clock = 1700000000ull; uint64_t time_calls = 0; std::vector<uint64_t> clock_seq; std::vector<uint64_t> clock_given;   // clock_seq: successive readings (last one repeats); clock_given: what was delivered
     // --- KDF
     std::vector<KdfCall> kdf; KdfMode kdf_mode = KDF_MIX; uint8_t kdf_fixed[32] = {0}; uint64_t kdf_key_salt = 0;
     // --- wipe
@@ -55,12 +55,12 @@ struct Kit {
     int yield_mode = 0;
 
     void reset_logs() {
-        rand_calls.clear(); rand_total = 0; time_calls = 0; kdf.clear(); mz.clear(); mz_calls = 0;
+        rand_calls.clear(); rand_total = 0; time_calls = 0; clock_given.clear(); kdf.clear(); mz.clear(); mz_calls = 0;
         alloc_calls = alloc_failed = free_calls = 0; freed.clear(); ledger_errors.clear();
         nfc_calls = nfkd_calls = 0; truncated = false; invalid_seen = false;
     }
     void reset_all() {
-        reset_logs(); rand_bytes.clear(); rand_pos = 0; clock = 1700000000ull; kdf_mode = KDF_MIX; memset(kdf_fixed, 0, 32); kdf_key_salt = 0;
+        reset_logs(); rand_bytes.clear(); rand_pos = 0; clock = 1700000000ull; clock_seq.clear(); kdf_mode = KDF_MIX; memset(kdf_fixed, 0, 32); kdf_key_salt = 0;
         mz_mode = MZ_WIPE; mz_log = true; fail_mask = 0; fail_pos = 0; fail_all = false; foreign_ok = false; track = true; garbage = 0xA7; lenient = false; norm_passthrough = false; yield_mode = 0;
         // live blocks are NOT dropped: they belong to seeds still held by the test
     }
@@ -86,7 +86,7 @@ template <int S> void f_randbytes(void* out, size_t n) {
     uint8_t* o = (uint8_t*)out;
     for (size_t i = 0; i < n; i++) { o[i] = k.rand_pos < k.rand_bytes.size() ? k.rand_bytes[k.rand_pos] : (uint8_t)(0x5C + k.rand_pos); k.rand_pos++; }
 }
-template <int S> uint64_t f_time(void) { StubScope sc_; Kit& k = kit(S); maybe_yield(k); k.time_calls++; return k.clock; }
+template <int S> uint64_t f_time(void) { StubScope sc_; Kit& k = kit(S); maybe_yield(k); uint64_t v = k.clock_seq.empty() ? k.clock : k.clock_seq[k.time_calls < k.clock_seq.size() ? k.time_calls : k.clock_seq.size() - 1]; k.time_calls++; if (k.clock_given.size() < 16) k.clock_given.push_back(v); return v; }
 template <int S> void f_pbkdf2(const uint8_t* pw, size_t pwlen, const uint8_t* salt, size_t saltlen, uint64_t it, uint8_t* key, size_t keylen) {
     StubScope sc_; Kit& k = kit(S); maybe_yield(k);
     KdfCall c; c.pwlen = pwlen; c.saltlen = saltlen; c.iterations = it; c.key = key; c.keylen = keylen; c.pw_ptr = pw;
